@@ -355,12 +355,21 @@ def run_property(P, tier, seed, replay=None):
             f = None
         if f is not None:
             record_failure(f, c, known, known_hits, oracle_failures)
-        reqs = P.to_model(c)
+        try:
+            reqs = P.to_model(c)
+        except Exception as e:
+            harness_errors.append({'case': jsonable(c), 'error': traceback.format_exc()[-1500:]})
+            impl_outs[-1] = {'harness_error': repr(e)}
+            reqs = []
         spans.append((len(requests), len(requests) + len(reqs)))
         requests.extend(reqs)
     if harness_errors:
-        log(json.dumps(harness_errors[:3], indent=1, default=repr))
-        raise Infra(f'{len(harness_errors)} harness errors (first shown above)')
+        # the harness could not digest what the implementation did on these inputs (on the unchanged tree it always can):
+        # the correspondence is broken there, which is reported like any other broken tie, with the inputs searched first
+        log(json.dumps(harness_errors[:2], indent=1, default=repr)[:4000])
+        tie_failures.append({'kind': 'harness', 'count': len(harness_errors), 'first': harness_errors[0],
+                             'what': 'the correspondence could not be evaluated on these inputs (exception while reading the '
+                                     'implementation\'s output)'})
 
     disagreements = []
     model_outs = None
@@ -371,6 +380,8 @@ def run_property(P, tier, seed, replay=None):
             model_outs = None
     if model_outs is not None:
         for c, io, (a, b) in zip(cases, impl_outs, spans):
+            if isinstance(io, dict) and 'harness_error' in io:
+                continue
             d = P.compare(c, io, model_outs[a:b])
             if d is not None:
                 disagreements.append({'case': c, 'impl': io, 'model': model_outs[a:b], 'diff': d})
@@ -387,7 +398,7 @@ def run_property(P, tier, seed, replay=None):
         else:
             for _ in range(5):
                 extra.extend(P.cases(rng, tier))
-        for c in [d['case'] for d in disagreements] + extra:
+        for c in [h['case'] for h in harness_errors] + [d['case'] for d in disagreements] + extra:
             searched += 1
             try:
                 f = P.oracle(c)
